@@ -233,10 +233,14 @@ def build(ctx):
     ctx.unit("metric_keys", lambda: unit_metric_keys(ctx))
     ctx.unit("ctor_defaults", lambda: unit_ctor_defaults(ctx))
     ctx.unit("decorators", lambda: unit_decorators(ctx))
+    # below the summarised pipeline: the evaluation stage must not write into the configuration it is handed (frame unit of C02)
+    include_stage(ctx, "C02", only=lambda mod, sub: [sub.unit("evaluate_matched_instance[frame]", lambda: mod.unit_eval_frame(sub))])
     ctx.add_bounded("c15-history", "c15.bounded")
 
 
 def concretise(ctx, o, r):
+    if (o.info or {}).get("stage"):
+        return stage_concretise(ctx, o, r)
     if o.replay == "c15.ctor":
         return {"decision_metric": o.info.get("decision_metric")}
     m = r.get("model") or {}
